@@ -229,6 +229,154 @@ pub fn wide_container<const B: u8>() {
     kani::cover!(items > 3);
 }
 
+// ---- group 1b: 8-byte container lengths (counter arithmetic of skip() at full width) ----------
+/// model of `Decoder::array` / `Decoder::map` on the domain {one-byte heads, 8-byte-length heads}
+fn wide_head<'b: 'b>(d: &mut Decoder<'b>, major: u8) -> Result<Option<u64>, Error> {
+    let b = next_byte(d)?;
+    if b & 0xe0 != major { dom_fail() }
+    match b & 0x1f {
+        n @ 0..=23 => Ok(Some(n as u64)),
+        27 => {
+            let p = d.position();
+            let inp = d.input();
+            if inp.len() - p < 8 { return Err(Error::end_of_input()) }
+            let n = u64::from_be_bytes([inp[p], inp[p + 1], inp[p + 2], inp[p + 3], inp[p + 4], inp[p + 5], inp[p + 6], inp[p + 7]]);
+            d.set_position(p + 8);
+            Ok(Some(n))
+        }
+        31 => Ok(None),
+        _ => dom_fail(),
+    }
+}
+pub fn m_array_w<'b: 'b>(d: &mut Decoder<'b>) -> Result<Option<u64>, Error> { wide_head(d, 0x80) }
+pub fn m_map_w<'b: 'b>(d: &mut Decoder<'b>) -> Result<Option<u64>, Error> { wide_head(d, 0xa0) }
+
+macro_rules! lm_equiv_wide {
+    ($name:ident, $b0:expr, $len:expr, |$d:ident| $real:expr, $model:ident) => {
+        #[kani::proof]
+        pub fn $name() {
+            let a: [u8; 8] = kani::any();
+            let buf = [$b0, a[0], a[1], a[2], a[3], a[4], a[5], a[6], a[7]];
+            let mut $d = Decoder::new(&buf[..$len]);
+            let r1 = $real;
+            let p1 = $d.position();
+            let mut d2 = Decoder::new(&buf[..$len]);
+            let r2 = $model(&mut d2);
+            let p2 = d2.position();
+            match (r1, r2) {
+                (Ok(x), Ok(y)) => assert!(x == y && p1 == p2 && $len == 9, "model differs from the real accessor"),
+                (Err(e), Err(f)) => assert!(e.is_end_of_input() && f.is_end_of_input() && $len < 9),
+                _ => assert!(false, "model and real accessor disagree on Ok/Err"),
+            }
+        }
+    };
+}
+lm_equiv_wide!(c06_lm_array_wide, 0x9b, 9, |d| d.array(), m_array_w);
+lm_equiv_wide!(c06_lm_map_wide, 0xbb, 9, |d| d.map(), m_map_w);
+lm_equiv_wide!(c06_lm_array_wide_cut, 0x9b, 6, |d| d.array(), m_array_w);
+lm_equiv_wide!(c06_lm_map_wide_cut, 0xbb, 6, |d| d.map(), m_map_w);
+
+/// A definite array / map head with an 8-byte length (symbolic, ANY value) followed by ITEMS
+/// one-byte scalar items and the end of the input: skip() succeeds exactly when the declared number
+/// of items (2n for maps, WITHOUT wrapping) is present, ending behind the last one; otherwise the
+/// item is truncated and skip() must fail.
+pub fn wide_len<const B: u8, const ITEMS: usize>() {
+    let a: [u8; 8] = kani::any();
+    let t: [u8; 3] = kani::any();
+    let mut buf = [0u8; 12];
+    buf[0] = B;
+    buf[1] = a[0]; buf[2] = a[1]; buf[3] = a[2]; buf[4] = a[3]; buf[5] = a[4]; buf[6] = a[5]; buf[7] = a[6]; buf[8] = a[7];
+    let mut i = 0;
+    while i < 3 { kani::assume(t[i] == 0x00 || t[i] == 0x20 || t[i] == 0xf6); buf[9 + i] = t[i]; i += 1; }
+    let n = u64::from_be_bytes(a);
+    let items: u128 = if B >> 5 == 5 { (n as u128) * 2 } else { n as u128 };
+    let mut d = Decoder::new(&buf[..9 + ITEMS]);
+    let r = d.skip();
+    if items <= ITEMS as u128 {
+        assert!(r.is_ok(), "skip() failed on a complete container");
+        assert!(d.position() == 9 + items as usize, "skip() stopped at a different position than the container's end");
+    } else {
+        assert!(r.is_err(), "skip() stopped early although the container declares more items than the input holds");
+    }
+    kani::cover!(items > ITEMS as u128 && n >= 1 << 63, "a length whose doubling wraps");
+    kani::cover!(items == ITEMS as u128, "the container is exactly complete");
+}
+macro_rules! wide_harness {
+    ($name:ident, $b:expr, $items:expr, $uw:expr) => {
+        #[kani::proof]
+        #[kani::unwind($uw)]
+        #[cfg_attr(feature = "alloc", kani::stub(minicbor::decode::Error::with_message, m_with_message))]
+        #[cfg_attr(feature = "alloc", kani::stub(alloc::vec::Vec::new, m_vec_new))]
+        #[cfg_attr(feature = "alloc", kani::stub(alloc::vec::Vec::push, m_vec_push))]
+        #[kani::stub(minicbor::decode::Decoder::u64, m_u64)]
+        #[kani::stub(minicbor::decode::Decoder::int, m_int)]
+        #[kani::stub(minicbor::decode::Decoder::array, m_array_w)]
+        #[kani::stub(minicbor::decode::Decoder::map, m_map_w)]
+        #[kani::stub(minicbor::decode::Decoder::unsigned, m_unsigned)]
+        #[kani::stub(minicbor::decode::Decoder::bytes_iter, m_bytes_iter)]
+        #[kani::stub(minicbor::decode::Decoder::str_iter, m_str_iter)]
+        pub fn $name() { wide_len::<$b, $items>() }
+    };
+}
+wide_harness!(c06_wide_len_map_0, 0xbb, 0, 5);
+wide_harness!(c06_wide_len_map_2, 0xbb, 2, 7);
+wide_harness!(c06_wide_len_array_0, 0x9b, 0, 5);
+wide_harness!(c06_wide_len_array_2, 0x9b, 2, 7);
+
+// ---- group 1c: explicit-stack mode of the alloc build behind a concrete prefix -----------------
+/// `83 9f ff` puts the alloc build's skip() into explicit-stack mode with a DEFINITE frame on top (two
+/// items pending); `82 9f` leaves an INDEFINITE frame on top.  Behind that concrete prefix follow
+/// one symbolic alphabet byte X (every container kind as a later sibling / first child) and three
+/// bytes over {00, ff}.  Oracle: R3 on the whole buffer.
+#[cfg(feature = "alloc")]
+pub fn stack_mode<const P: usize>() {
+    let x: u8 = kani::any();
+    kani::assume(in_alphabet(x));
+    let t: [u8; 3] = kani::any();
+    let mut buf = [0u8; 7];
+    let pl = if P == 0 { buf[0] = 0x83; buf[1] = 0x9f; buf[2] = 0xff; 3 } else { buf[0] = 0x82; buf[1] = 0x9f; 2 };
+    buf[pl] = x;
+    let mut i = 0;
+    while i < 3 { kani::assume(t[i] == 0x00 || t[i] == 0xff); buf[pl + 1 + i] = t[i]; i += 1; }
+    let total = pl + 4;
+    let want = wellformed::<8>(&buf[..total], 0, 8);
+    let mut d = Decoder::new(&buf[..total]);
+    let r = d.skip();
+    let pos = d.position();
+    match want {
+        Wf::Ok { end, .. } => {
+            assert!(r.is_ok(), "skip() failed on a well-formed item");
+            assert!(pos == end, "skip() stopped at a different position than the item's end");
+            kani::cover!(end == total, "a well-formed item of maximal length exists");
+        }
+        Wf::Trunc => assert!(r.is_err(), "skip() stopped early on a strict prefix of a well-formed item"),
+        Wf::Bad => {}
+        Wf::Bound => assert!(false, "oracle bound exceeded"),
+    }
+}
+#[cfg(feature = "alloc")]
+macro_rules! stack_harness {
+    ($name:ident, $p:expr, $uw:expr) => {
+        #[kani::proof]
+        #[kani::unwind($uw)]
+        #[kani::stub(minicbor::decode::Error::with_message, m_with_message)]
+        #[kani::stub(alloc::vec::Vec::new, m_vec_new)]
+        #[kani::stub(alloc::vec::Vec::push, m_vec_push)]
+        #[kani::stub(minicbor::decode::Decoder::u64, m_u64)]
+        #[kani::stub(minicbor::decode::Decoder::int, m_int)]
+        #[kani::stub(minicbor::decode::Decoder::array, m_array)]
+        #[kani::stub(minicbor::decode::Decoder::map, m_map)]
+        #[kani::stub(minicbor::decode::Decoder::unsigned, m_unsigned)]
+        #[kani::stub(minicbor::decode::Decoder::bytes_iter, m_bytes_iter)]
+        #[kani::stub(minicbor::decode::Decoder::str_iter, m_str_iter)]
+        pub fn $name() { stack_mode::<$p>() }
+    };
+}
+#[cfg(feature = "alloc")]
+stack_harness!(c06_stack_mode_definite_top, 0, 11);
+#[cfg(feature = "alloc")]
+stack_harness!(c06_stack_mode_indefinite_top, 1, 10);
+
 /// Indefinite-length strings (`5f 41 a 42 b c ff` / the text analogue) and every strict prefix:
 /// one harness per concrete cut point K; skip() is Ok only on the whole item.
 pub fn chunked_prefix<const MAJOR: u8, const K: usize>() {
